@@ -99,11 +99,14 @@ def _pad_face_connections(
 
     # Detect all the axes we have to deal with during padding
     # all the axes defined in the connections + the axes of the padding width should give all axes we need to iterate over
-    pad_axes = list(
-        dict.fromkeys(
-            _get_all_connection_axes(connections, facedim) + list(padding_width.keys())
-        )
+    needed_axes = _get_all_connection_axes(connections, facedim) + list(
+        padding_width.keys()
     )
+    # visit them in the order of the grid's axes, so that the result (the halo corners
+    # in particular) depends neither on the order in which the links or the widths are
+    # listed nor on the iteration order of a set
+    pad_axes = [axname for axname in grid.axes if axname in needed_axes]
+    pad_axes += [axname for axname in dict.fromkeys(needed_axes) if axname not in pad_axes]
 
     padding_width = {axname: padding_width.get(axname, (0, 0)) for axname in pad_axes}
 
